@@ -124,5 +124,6 @@ def run(ctx, rule="CONTROL"):
             "fold_dropped": ["fold-dropped"], "fold_kept": [],
             "uint_arith": ["uint-arith"], "uint_arith_converted": [],
             "stale_buffer": ["stale-buffer"], "fresh_buffer": [],
-            "assert_same": ["assert-falls"], "assert_same_raises": []}
+            "assert_same": ["assert-falls"], "assert_same_raises": [],
+            "unsafe_int_cast": ["unsafe-int-cast"], "safe_int_cast": []}
     ctx.ob(rule, "py-slips", got == want, fx, "python slip lints on the fixture: %s" % got)
